@@ -438,7 +438,27 @@ def mk_atoms(facts):
 NONNULL = type('NonNull', (), {'__repr__': lambda self: '<not None>'})()
 
 
-def explore(stmts, atoms, names=(), upto=None, max_paths=20000, exceptions=False, env0=None, may_raise=None, is_subclass=None, nonnull=(ast.Tuple, ast.List, ast.Dict, ast.Set, ast.JoinedStr), mark=None):
+def _known_lookups(node, atoms):
+    """3-valued membership facts for the item reads `X[k]` of a CFG node: [value of the atom `k in X`] for those the valuation knows"""
+    from .cfg import UNK
+    target = node.ast
+    if node.kind == 'test':
+        target = node.ast.test
+    elif node.kind == 'for':
+        target = node.ast.iter
+    elif node.kind in ('with_enter', 'with_exit') or target is None:
+        return []
+    out = []
+    for n in walk_no_nested(target):
+        if isinstance(n, ast.Subscript) and isinstance(n.ctx, ast.Load) and not isinstance(n.slice, (ast.Slice, ast.Tuple)):
+            v = atoms(ast.Compare(left=n.slice, ops=[ast.In()], comparators=[n.value]))
+            if v is not UNK and v is not None:
+                out.append(bool(v))
+    return out
+
+
+def explore(stmts, atoms, names=(), upto=None, max_paths=20000, exceptions=False, env0=None, may_raise=None, is_subclass=None, nonnull=(ast.Tuple, ast.List, ast.Dict, ast.Set, ast.JoinedStr), mark=None,
+            key_lookups=False):
     """Feasible control-flow paths of `stmts` under the 3-valued atom valuation `atoms(expr)` (branches whose test evaluates to a constant are
     pruned; constants assigned to plain locals on the path are tracked, so `flag = True ... if flag:` is followed).  Returns one dict per
     path: kind ('return'/'raise'/'fall'/'continue'/'break' or 'upto'), stmt (the terminating Return/Raise statement or None),
@@ -451,12 +471,27 @@ def explore(stmts, atoms, names=(), upto=None, max_paths=20000, exceptions=False
         kw['may_raise'] = may_raise
     if is_subclass is not None:
         kw['is_subclass'] = is_subclass
-    cfg = CFG(stmts, exceptions=exceptions or may_raise is not None, **kw)
+    if key_lookups:
+        # an item read `X[k]` whose membership atom `k in X` the valuation decides raises KeyError exactly when the atom is false: the only
+        # exception edges of the graph, followed / pruned by that value (`try: return X[k] except KeyError: pass` reads like `if k in X: return X[k]`)
+        class _N:
+            def __init__(self, kind, a):
+                self.kind, self.ast = kind, a
+        kw['may_raise'] = lambda kind, a: {'KeyError'} if _known_lookups(_N(kind, a), atoms) else set()
+        kw.setdefault('is_subclass', lambda a_, b_: a_ == b_ or (a_ == 'KeyError' and b_ in ('LookupError', 'Exception', 'BaseException')))
+    cfg = CFG(stmts, exceptions=exceptions or may_raise is not None or key_lookups, **kw)
     stop_ids = set(cfg_nodes_containing(cfg, upto)) if upto is not None else set()
     res = []
 
     def step(state, node, label):
         cenv, env, calls, last, stores = state
+        if key_lookups:
+            kl = _known_lookups(node, atoms)
+            if kl:
+                if label == 'exc:KeyError' and all(kl):
+                    return None         # every lookup of the statement is known to succeed
+                if not label.startswith('exc:') and not all(kl):
+                    return None         # a lookup of the statement is known to fail: the statement does not complete
         if label.startswith('exc:'):
             return state
         if node.kind == 'test' and label in ('true', 'false') and isinstance(node.ast, (ast.If, ast.While)):
